@@ -11,6 +11,7 @@
 //!   stats.json    counts, input distribution, samples
 
 mod ctx;
+mod frame;
 mod gen;
 mod io;
 mod props;
